@@ -337,50 +337,68 @@ pub fn valid_header_strategy() -> impl Strategy<Value = HdrSpec> {
         3 => 0u16..20,
         1 => any::<u16>(),
     ];
-    ((0..n).prop_map(move |i| gv[i]), any::<bool>(), num.clone(), num, any::<u32>()).prop_map(|((g, v), wide, a, b, seed)| {
-        use crate::verif::wire::app::is_event_group;
-        let lay = layout(g, v);
-        let q = match lay {
-            Some(Layout::FreeFormat) => 0x5B,
-            Some(Layout::Attr) => 0x00,
-            Some(Layout::NoObjects) => [0x06u8, 0x06, 0x07, 0x00][(seed % 4) as usize],
-            _ if matches!(g, 50 | 51 | 52) => {
-                if wide {
-                    0x08
-                } else {
-                    0x07
+    (
+        (0..n).prop_map(move |i| gv[i]),
+        any::<bool>(),
+        num.clone(),
+        num,
+        any::<u32>(),
+    )
+        .prop_map(|((g, v), wide, a, b, seed)| {
+            use crate::verif::wire::app::is_event_group;
+            let lay = layout(g, v);
+            let q = match lay {
+                Some(Layout::FreeFormat) => 0x5B,
+                Some(Layout::Attr) => 0x00,
+                Some(Layout::NoObjects) => [0x06u8, 0x06, 0x07, 0x00][(seed % 4) as usize],
+                _ if matches!(g, 50 | 51 | 52) => {
+                    if wide {
+                        0x08
+                    } else {
+                        0x07
+                    }
                 }
-            }
-            _ if is_event_group(g) || matches!(g, 12 | 41 | 34 | 13 | 43) => {
-                if wide {
-                    0x28
-                } else {
-                    0x17
+                _ if is_event_group(g) || matches!(g, 12 | 41 | 34 | 13 | 43) => {
+                    if wide {
+                        0x28
+                    } else {
+                        0x17
+                    }
                 }
-            }
-            _ => {
-                if wide {
-                    0x01
-                } else {
-                    0x00
+                _ => {
+                    if wide {
+                        0x01
+                    } else {
+                        0x00
+                    }
                 }
+            };
+            // ranges: short, or ending at the top of the index space; counts: small or boundary
+            let (a, b) = match (q, seed % 6) {
+                (0x00, 0) => (255 - (seed as u16 >> 8) % 5, 255),
+                (0x01, 0) => (65535 - (seed as u16 >> 8) % 5, 65535),
+                (0x00 | 0x01, _) => {
+                    let lo = if q == 0 { a & 0xFF } else { a };
+                    let hi = lo.saturating_add((seed >> 8) as u16 % 40);
+                    (lo, if q == 0 { hi.min(255) } else { hi })
+                }
+                (_, 0) => ([0u16, 1, 255, 256][(seed as usize >> 8) % 4], b),
+                _ => (a % 12, b),
+            };
+            let (a, b) = if matches!(lay, Some(Layout::Attr)) {
+                (a % 3, a % 3)
+            } else {
+                (a, b)
+            };
+            HdrSpec {
+                g,
+                v,
+                q,
+                a,
+                b,
+                seed,
             }
-        };
-        // ranges: short, or ending at the top of the index space; counts: small or boundary
-        let (a, b) = match (q, seed % 6) {
-            (0x00, 0) => (255 - (seed as u16 >> 8) % 5, 255),
-            (0x01, 0) => (65535 - (seed as u16 >> 8) % 5, 65535),
-            (0x00 | 0x01, _) => {
-                let lo = if q == 0 { a & 0xFF } else { a };
-                let hi = lo.saturating_add((seed >> 8) as u16 % 40);
-                (lo, if q == 0 { hi.min(255) } else { hi })
-            }
-            (_, 0) => ([0u16, 1, 255, 256][(seed as usize >> 8) % 4], b),
-            _ => (a % 12, b),
-        };
-        let (a, b) = if matches!(lay, Some(Layout::Attr)) { (a % 3, a % 3) } else { (a, b) };
-        HdrSpec { g, v, q, a, b, seed }
-    })
+        })
 }
 
 /// mostly-valid fragments: response or request function codes that admit object data, 1-4 suitable headers, light mutation
@@ -394,11 +412,17 @@ pub fn valid_frag_strategy() -> impl Strategy<Value = FragSpec> {
         1 => (any::<u16>(), any::<u8>()).prop_map(|(k, b)| Mutation::Flip(k, b)),
         1 => (any::<u16>(), prop_oneof![Just(0u8), Just(1), Just(255), any::<u8>()]).prop_map(|(k, v)| Mutation::Set(k, v)),
     ];
-    (function, any::<(u8, u8)>(), proptest::collection::vec(valid_header_strategy(), 1..5), prop_oneof![4 => Just(vec![]), 1 => proptest::collection::vec(mutation, 1..2)]).prop_map(|(func, iin, headers, muts)| FragSpec {
-        ctrl: if func == 130 { 0xF0 } else { 0xC0 },
-        func,
-        iin,
-        headers,
-        muts,
-    })
+    (
+        function,
+        any::<(u8, u8)>(),
+        proptest::collection::vec(valid_header_strategy(), 1..5),
+        prop_oneof![4 => Just(vec![]), 1 => proptest::collection::vec(mutation, 1..2)],
+    )
+        .prop_map(|(func, iin, headers, muts)| FragSpec {
+            ctrl: if func == 130 { 0xF0 } else { 0xC0 },
+            func,
+            iin,
+            headers,
+            muts,
+        })
 }
